@@ -110,3 +110,13 @@ Definition g_oupd (o : oslice) (i : Z) (f : gsetting -> gsetting) : R oslice :=
 (* _, err := port.Write(x): the frame joins the port's output unless the write fails with the given error *)
 Definition g_port_write (port : list bytes) (x : bytes) (pw_err : option Z) : list bytes * option Z :=
   match pw_err with None => (port ++ [x], None) | Some c => (port, Some c) end.
+
+(* ---- texts: a string built from bytes, or a formatted text kept as its format and integer arguments ---- *)
+Require Import Coq.Strings.String.
+Inductive gstring := GText (b : bytes) | GFmt (f : string) (args : list Z).
+(* strings.TrimSpace on ASCII text: \t \n \v \f \r and space dropped from both ends *)
+Definition g_is_space (b : byte) : bool := ((9 <=? b)%N && (b <=? 13)%N) || (b =? 32)%N.
+Fixpoint g_drop_space (d : bytes) : bytes :=
+  match d with b :: t => if g_is_space b then g_drop_space t else d | [] => [] end.
+Definition g_trimspace (s : gstring) : gstring :=
+  match s with GText d => GText (rev (g_drop_space (rev (g_drop_space d)))) | other => other end.
